@@ -257,7 +257,7 @@ CHECKS["C15"] = {
     "assumptions": ["view UIDs strictly ascending and non-zero"],
 }
 
-C10_FILES = ["zz_verif_c10.go", "zz_verif_c10b.go", "zz_verif_reader.go"]
+C10_FILES = ["zz_verif_c10.go", "zz_verif_c10b.go", "zz_verif_c10c.go", "zz_verif_reader.go"]
 
 CHECKS["C10"] = {
     "explanation": "The harness is a printer: it builds the byte string of a command from an abstract command whose leaves are symbolic (tag bytes, letter case of every keyword character, each string argument in atom / quoted / literal encoding with symbolic payload bytes, digit strings, sequence sets, optional short reads), feeds it through command.Parser.Parse (real go/ssa of imap/command and rfcparser) and compares the result with the abstract command.",
@@ -270,6 +270,16 @@ CHECKS["C10"] = {
          "summarise": SCAN_SUMMARISE, "cover": []},
         {"name": "store", "pkg": "imap/command", "pkgname": "command", "entry": "VerifC10Store", "files": C10_FILES,
          "params": {"quick": grid(nflags=[0, 1], symcase=[1]) + grid(nflags=[2], symcase=[0]), "thorough": grid(nflags=[0, 1, 2], symcase=[1], symset=[0, 1]) + grid(nflags=[3], symcase=[0])},
+         "summarise": SCAN_SUMMARISE, "cover": []},
+        {"name": "search", "pkg": "imap/command", "pkgname": "command", "entry": "VerifC10Search", "files": C10_FILES,
+         "params": {"quick": grid(fam=[0], depth=[0], nkeys=[0], symcase=[1]) + grid(fam=[1], slen=[0], symcase=[0]) + grid(fam=[2], symcase=[0]),
+                    "thorough": grid(fam=[0], depth=[1], nkeys=[0, 1], symcase=[0, 1]) + grid(fam=[1], slen=[0, 1, 2], symcase=[0, 1], nkeys=[0, 1]) + grid(fam=[2], symcase=[1], nkeys=[0, 1])},
+         "summarise": SCAN_SUMMARISE, "cover": []},
+        {"name": "append", "pkg": "imap/command", "pkgname": "command", "entry": "VerifC10Append", "files": C10_FILES,
+         "params": {"quick": grid(litlen=[0, 2], symcase=[0]), "thorough": grid(litlen=[0, 1, 2, 4], symcase=[0, 1], chunked=[0, 1])},
+         "summarise": SCAN_SUMMARISE, "cover": []},
+        {"name": "misc", "pkg": "imap/command", "pkgname": "command", "entry": "VerifC10Misc", "files": C10_FILES,
+         "params": {"quick": grid(symcase=[1]), "thorough": grid(symcase=[1], symtag=[0, 1], bigset=[0, 1])},
          "summarise": SCAN_SUMMARISE, "cover": []},
     ],
     "stubs": ["rfcparser.Reader -> fixed buffer, optional symbolic short reads"],
